@@ -1246,7 +1246,101 @@ fn history<F: Flavor + XenMake>(case: u64, args: &Args) {
     }
 }
 
+/// A region with more than 2^32 pages (page size 1, 4 GiB + 64 KiB, never touched except where
+/// written): writes at and around page index 2^32 at guest-memory, region and slice level must be
+/// reported dirty at their own offsets [C05] and nowhere else - in particular not at the low
+/// offsets they would alias to under 32-bit index arithmetic [C16].
+#[cfg(not(feature = "xen"))]
+fn huge_region() {
+    use vm_memory::mmap::MmapRegionBuilder;
+    let len = (1usize << 32) + (64 << 10);
+    let lim = 1usize << 32;
+    let reg = match MmapRegionBuilder::new_with_bitmap(len, AtomicBitmap::new(len, NonZeroUsize::new(1).unwrap()))
+        .with_mmap_prot(libc::PROT_READ | libc::PROT_WRITE)
+        .with_mmap_flags(libc::MAP_ANONYMOUS | libc::MAP_PRIVATE | libc::MAP_NORESERVE)
+        .build()
+    {
+        Ok(r) => r,
+        Err(e) => {
+            out::note("C05-16/huge-region-not-available", J::dbg(&e));
+            return;
+        }
+    };
+    let gm = GuestMemoryMmap::from_regions(vec![GuestRegionMmap::new(reg, GuestAddress(0x1_0000_0000)).unwrap()]).unwrap();
+    let region = gm.iter().next().unwrap();
+    let bm = region.bitmap();
+    let mut want: std::collections::BTreeSet<usize> = Default::default();
+    let check = |want: &std::collections::BTreeSet<usize>, ctx: &str| -> bool {
+        let mut pts: Vec<usize> = vec![0, 1, 0x1234, 0x1238, lim - 9, lim - 1, lim, lim + 1, lim + 7, lim + 0x1234, lim + 0x1240, len - 1];
+        pts.extend(want.iter().flat_map(|p| [*p, p.wrapping_sub(1), p + 1, p % lim, p.wrapping_sub(lim)]));
+        for p in pts {
+            if p >= len {
+                continue;
+            }
+            let w = want.contains(&p);
+            if bm.dirty_at(p) != w {
+                if w {
+                    out::viol(&format!("C05/huge-region/{}/changed-byte-reported-clean", ctx), jobj! {"offset" => p});
+                } else {
+                    out::viol(&format!("C16/huge-region/{}/page-not-overlapping-the-write-marked", ctx), jobj! {"offset" => p});
+                }
+                return false;
+            }
+        }
+        true
+    };
+    let base = 0x1_0000_0000u64;
+    // (name, offset, length, route)
+    let writes: Vec<(&str, usize, usize, u8)> = vec![
+        ("guest.write_obj<u64>-above-2^32", lim + 0x1234, 8, 0),
+        ("guest.write_slice-straddling-2^32", lim - 3, 8, 1),
+        ("region.write-above-2^32", lim + 0x2000, 5, 2),
+        ("slice.write_obj<u32>-above-2^32", lim + 0x3003, 4, 3),
+        ("guest.store<u64>-above-2^32", lim + 0x4000, 8, 4),
+        ("region.write-at-low-alias", 0x1230, 6, 2),
+        ("guest.write_obj<u64>-at-2^32", lim, 8, 0),
+    ];
+    for (name, off, n, route) in writes {
+        let data: Vec<u8> = (0..n).map(|i| 0xc3u8 ^ i as u8).collect();
+        let ga = GuestAddress(base + off as u64);
+        let ok = match route {
+            0 => gm.write_obj::<u64>(u64::from_ne_bytes(data[..8].try_into().unwrap()), ga).is_ok(),
+            1 => gm.write_slice(&data, ga).is_ok(),
+            2 => region.write(&data, MemoryRegionAddress(off as u64)).map_or(false, |k| k == n),
+            3 => region.get_slice(MemoryRegionAddress(off as u64 - 1), n + 2).map_or(false, |s| s.write_obj::<u32>(u32::from_ne_bytes(data[..4].try_into().unwrap()), 1).is_ok()),
+            _ => gm.store::<u64>(u64::from_ne_bytes(data[..8].try_into().unwrap()), ga, Ordering::SeqCst).is_ok(),
+        };
+        if !ok {
+            out::viol(&format!("C05/huge-region/{}/write-refused", name), J::Null);
+            return;
+        }
+        want.extend(off..off + n);
+        if !check(&want, name) {
+            return;
+        }
+        out::key(&format!("huge-region|{}", name), true);
+        out::eval(1);
+    }
+    // partial reset above 2^32, then a write into the same place
+    bm.reset_addr_range(lim + 0x1234, 8);
+    for p in lim + 0x1234..lim + 0x123c {
+        want.remove(&p);
+    }
+    check(&want, "reset_addr_range-above-2^32");
+    let _ = gm.write_obj::<u16>(0x0102, GuestAddress(base + (lim + 0x1236) as u64));
+    want.extend([lim + 0x1236, lim + 0x1237]);
+    check(&want, "guest.write_obj<u16>-after-reset-above-2^32");
+    out::count("huge_region_bytes", len as i128);
+}
+
 pub fn run(args: &Args) {
+    #[cfg(not(feature = "xen"))]
+    if args.shard().0 == 0 && !cfg!(miri) && !args.flag("nohuge") {
+        if let Err(p) = guarded(huge_region) {
+            out::viol(&format!("C05/panic/huge-region/{}", panic_sig(&p)), J::s(p.clone()));
+            out::viol(&format!("C16/panic/huge-region/{}", panic_sig(&p)), J::s(p));
+        }
+    }
     out::set_quiet_cases(true);
     for case in args.cases(4000) {
         #[cfg(not(feature = "xen"))]
